@@ -67,8 +67,10 @@ def to_wikitext(
             # Certain constructs needs to be protected so that they don't get
             # parsed when we convert back and forth between wikitext and parsed
             # representations.
-            node = re.sub(r"(?si)\[\[", "[<noinclude/>[", node)
-            node = re.sub(r"(?si)\]\]", "]<noinclude/>]", node)
+            # (lookahead, so that every pair in a run of three or more
+            # brackets is broken up, not just every other one)
+            node = re.sub(r"\[(?=\[)", "[<noinclude/>", node)
+            node = re.sub(r"\](?=\])", "]<noinclude/>", node)
             return node
         if isinstance(node, (list, tuple)):
             return "".join(map(recurse, node))
